@@ -85,7 +85,11 @@ async def run_sessions(spec: dict[str, Any], hist: History,
                     if not other:
                         other = (await s.select(b'Other')).ok
                     if other and s.shadow.count:
-                        await s.copy(b'1:*', b'INBOX')
+                        # messages that clients moved out of INBOX come
+                        # back (their flags changed meanwhile): they must be
+                        # new messages there, not their old selves
+                        await s.copy(b'1:*', b'INBOX',
+                                     move=s.rng.random() < 0.5)
 
         tasks = [client(s) for s in sessions]
         if spec.get('deliverer'):
@@ -94,6 +98,57 @@ async def run_sessions(spec: dict[str, Any], hist: History,
             tasks.append(deliverer(d))
         await asyncio.gather(*tasks)
         return env
+    finally:
+        env.cleanup()
+
+
+async def run_moveback(spec: dict[str, Any], hist: History) -> None:
+    """Messages leave the watched mailbox and come back: a watcher that was
+    told EXPUNGE can only be given them as NEW messages (EXISTS, at the
+    end).  In between their flags change (on maildir: their file names) and
+    some are copied, so that whatever the server keys its records by is put
+    to the test."""
+    env = await make_env(spec.get('backend', 'maildir'))
+    try:
+        rng = random.Random(spec['seed'])
+        if not await provision(env, hist, spec['nmsgs'], rng):
+            return
+        sched = sched_from(spec)
+        w, a, r = (Session(env, hist, i + 1, sched, spec['seed'] * 31 + i)
+                   for i in range(3))
+        for s in (w, a):
+            if not await s.start() or not (await s.select(b'INBOX')).ok:
+                return
+            await s.fetch_all()
+        if not await r.start():
+            return
+        for _ in range(spec.get('rounds', 2)):
+            n = a.shadow.count
+            if n < 2:
+                break
+            k = rng.randint(1, n - 1)       # not the last message
+            if rng.random() < 0.7:
+                await a.store(b'%d' % k, False, rng.choice(
+                    [b'+FLAGS', b'FLAGS']), rng.random() < 0.5,
+                    [rng.choice([b'\\Seen', b'\\Flagged', b'\\Answered'])])
+            if rng.random() < 0.3:
+                await a.copy(b'%d' % k, b'Other')
+            await a.copy(b'%d' % k, b'Other', move=True)
+            if rng.random() < 0.6:
+                await w.noop()
+            if not (await r.select(b'Other')).ok:
+                return
+            await r.fetch_all()
+            if r.shadow.count:
+                if rng.random() < 0.5:
+                    await r.store(b'1', False, b'+FLAGS', True,
+                                  [b'\\Draft'])
+                await r.copy(b'1:*', b'INBOX', move=rng.random() < 0.8)
+            await r.cmd(b'CLOSE')
+            for s in (w, a):
+                await s.noop()
+                await s.fetch_all()
+            hist.count('moveback_rounds')
     finally:
         env.cleanup()
 
@@ -159,6 +214,11 @@ class C01(Check):
                    'ncmds': rng.randint(3, 12 if backend == 'dict' else 7),
                    'sched': schedule_family(rng, nsess),
                    'deliverer': rng.random() < 0.4}
+            if i % 16 == 5:
+                yield {'kind': 'moveback', 'seed': seed * 1_000_003 + i,
+                       'backend': rng.choice(['dict', 'maildir', 'maildir']),
+                       'nmsgs': rng.randint(3, 6), 'rounds': rng.randint(1, 3),
+                       'sched': schedule_family(rng, 3)}
 
     def setup_worker(self) -> None:
         install_glass()
@@ -170,6 +230,8 @@ class C01(Check):
         async def main(loop: L.CtlLoop) -> None:
             if 'script' in spec:
                 await SCRIPTS[spec['script']](hist)
+            elif spec.get('kind') == 'moveback':
+                await run_moveback(spec, hist)
             else:
                 await run_sessions(spec, hist, DEFAULT_WEIGHTS)
 
